@@ -16,6 +16,20 @@ import (
 
 func genC05(t *rapid.T) Scenario {
 	sc := Scenario{N: 2, ZeroHigher: rapid.Bool().Draw(t, "zeroHigher")}
+	if rapid.IntRange(0, 5).Draw(t, "deniedFirst") == 0 {
+		// x asks first; y has no user interface open and denies at once; while the denied connection
+		// still lingers (about a second) y's user registers x as well
+		x := rapid.IntRange(0, 1).Draw(t, "dx")
+		y := 1 - x
+		sc.NoWait = []bool{y == 0, y == 1}
+		sc.Ops = []HubOp{{K: "register", X: x, Y: y}, {K: "appear", X: x, Y: y, WaitMs: rapid.SampledFrom([]int{100, 300, 600, 900, 1300}).Draw(t, "linger")},
+			{K: "register", X: y, Y: x, WaitMs: rapid.SampledFrom([]int{0, 200}).Draw(t, "w1")}, {K: "appear", X: y, Y: x, WaitMs: 500}}
+		for i, n := 0, rapid.IntRange(0, 2).Draw(t, "nDisturb"); i < n; i++ {
+			who := rapid.IntRange(0, 1).Draw(t, "who")
+			sc.Ops = append(sc.Ops, HubOp{K: rapid.SampledFrom([]string{"disconnect", "cut"}).Draw(t, "disturb"), X: who, Y: 1 - who, WaitMs: rapid.SampledFrom([]int{0, 300, 1500}).Draw(t, "dw")})
+		}
+		return sc
+	}
 	if rapid.IntRange(0, 2).Draw(t, "bystander") == 0 {
 		sc.N = 3
 	}
@@ -47,6 +61,11 @@ func genC05(t *rapid.T) Scenario {
 	}
 	// whatever was hidden becomes visible again for the quiet period
 	sc.Ops = append(sc.Ops, HubOp{K: "appear", X: 0, Y: 1}, HubOp{K: "appear", X: 1, Y: 0})
+	// sometimes an application does not let requests wait for its user: requests of SKIs that are not
+	// registered yet are denied at once and the denied connection lingers for about a second
+	if rapid.IntRange(0, 3).Draw(t, "noWait") == 0 {
+		sc.NoWait = []bool{rapid.Bool().Draw(t, "noWait0"), rapid.Bool().Draw(t, "noWait1"), false}
+	}
 	// sometimes the application's logger is slow for certain lines, or a link is slow (schedules)
 	sc.SlowLog = genSlowLog(t, sc.N)
 	if ms := rapid.SampledFrom([]int{0, 0, 0, 200, 700}).Draw(t, "slowLink"); ms > 0 {
@@ -95,7 +114,14 @@ func judgeC05(sc Scenario) (key, msg string, nontrivial bool) {
 	}
 	echo := 0
 	why := ""
+	// for the livelock clause below: connection attempts between the two hubs after the last
+	// operation, and whether both hubs ever had a completed connection at the same time since
+	attemptsBefore := len(f.Proxies[[2]int{0, 1}].Accepts()) + len(f.Proxies[[2]int{1, 0}].Accepts())
+	everBoth := false
 	ok := WaitFor(40*time.Second, func() bool {
+		if f.Completed(0, 1) && f.Completed(1, 0) {
+			everBoth = true
+		}
 		if !f.Completed(0, 1) || !f.Completed(1, 0) || f.LiveBetween(0, 1) != 1 {
 			return false
 		}
@@ -124,6 +150,14 @@ func judgeC05(sc Scenario) (key, msg string, nontrivial bool) {
 			return "C05/stuck", fmt.Sprintf("the hubs are quiescent for 6 s (no callback, no TCP connection attempt) but: %s (earlier: %s). Ops %+v%s", w, why, sc.Ops, f.Describe(14)), nontrivial
 		}
 		return "", "", nontrivial
+	}
+	// still busy at the bound. Busy and getting somewhere is inconclusive; a cycle of connection
+	// attempts none of which ever led to a completed connection on both hubs is a livelock
+	// (counted in events, not in time: a convergence takes one or two attempts)
+	attempts := len(f.Proxies[[2]int{0, 1}].Accepts()) + len(f.Proxies[[2]int{1, 0}].Accepts()) - attemptsBefore
+	if !everBoth && attempts >= 10 {
+		return "C05/livelock", fmt.Sprintf("%d connection attempts between the hubs after the last operation and never a completed connection on both of them (still cycling at the bound). Ops %+v%s",
+			attempts, sc.Ops, f.Describe(14)), nontrivial
 	}
 	return "inconclusive", "still busy at the bound: " + why, nontrivial
 }
